@@ -1,1 +1,327 @@
-(* Props/C02.v -- stub, to be filled in *)
+(* Props/C02.v -- property theorems only: Theorem / exact lemma / Check (pins the statement) / Print Assumptions.
+   C02: determinant and inverse agree with exact linear algebra; matrix left intact.
+
+   Notions (Proofs/LUPrim.v): ent m i j = the (i,j) entry of the flat row-major buffer; shape m r c = wf m /\ rows m = r /\ cols m = c;
+   mprod n X Y r c = sum_{k<n} X r k * Y k c; mvprod n X v r = sum_{k<n} X r k * v k; delta i j = 1 if i = j else 0;
+   unit_lower / upper = the two triangular parts of the in-place LU buffer; perm_by_swaps n piv P sw = P is the identity with its rows
+   exchanged by the piv genuine (a <> b) transpositions sw; tabulate n n f (Proofs/LUTab.v) = the matrix with entries f i j as the
+   code stores it (every wf matrix is the tabulation of its entries: tabulate_ent_id).
+
+   Hypotheses.  FieldLaws A (Base/Arith.v): field_theory for A's operations, eqb decides equality, div x y = Panic DivZero when y = 0
+   and x * y^-1 otherwise (what the exact Rust types do).  PivLaws A (Proofs/LUPrim.v) -- an auxiliary hypothesis the code genuinely
+   needs, absent from DESIGN Appendix E:
+       pl_abs0 : abs x = zero <-> x = zero      pl_pos : x <> zero -> ltb zero (abs x) = true      pl_nneg : ltb (abs x) zero = false
+   i.e. Signed::abs and PartialOrd::lt behave like a magnitude.  lu_decomp_in_place decides "skip this column" by `max_a == 0` where
+   max_a is the running maximum of |a_ki| under the strict test |a| > max_a; with a degenerate abs (say abs = const 0) every column
+   is skipped and P*M <> L*U, so no theorem below holds under FieldLaws alone.  Both records are PROVED, not assumed, for the
+   arithmetics the code is used at: Qc (AQ_FieldLaws in Inst/QcInst.v, AQ_PivLaws in Proofs/LUQc.v -- the instance the exact tier of
+   the correspondence check runs against the Rust Rat), R with Rabs and < (AR_FieldLaws, AR_PivLaws in Proofs/LUReal.v), C = R[i]
+   with the code's Signed::abs = (|z|, 0) and its lexicographic PartialOrd (CR_FieldLaws, CR_PivLaws, same file), and every mathcomp
+   numFieldType instance such as rat (rat_PivLaws in Bridge/Det.v).  See the Examples `laws_hold_at_*` below.
+
+   "Matrix left intact".  determinant and inverse take &self and work on a clone; in the value model they are functions
+   matrix -> res T / matrix -> res matrix that return no modified operand, so the statement is true by typing and there is nothing to
+   prove about the model.  What can go wrong in Rust (an &self method writing through interior mutability or unsafe) is observed at
+   run time: the executor snapshots the operand before determinant()/inverse() and compares it bit for bit afterwards (kinds mat.det,
+   mat.inverse in harness/src/k_matrix.rs; a difference is reported as a violation of C02).
+
+   Floating point.  The theorems are exact-arithmetic statements about the same Gallina functions whose float instances (AF, ACF)
+   are compared with the implementation; rounding accuracy of det/inverse over f64/Complex<f64> is tied and searched, not proved. *)
+From Coq Require Import List Arith.
+From OV Require Import Base.Panic Base.Arith Inst.QcInst Model.Vector Model.Matrix Model.Solve
+  Proofs.Matrix Proofs.LUPrim Proofs.LUSum Proofs.LU Proofs.LUSolve Proofs.LUInv Proofs.LUInvC Proofs.LUPanic Proofs.LUSolveC Proofs.LUKernel Proofs.LUQc Proofs.LUQcEx Proofs.LUReal Legacy.C02Refuted.
+Import ListNotations.
+
+Theorem lu_spec : forall (A : Arith), FieldLaws A -> PivLaws A -> forall M : matrix A, wf M -> rows M = cols M ->
+  exists LU piv P sw, lu_decomp M = Ok (LU, piv, P) /\
+    shape LU (rows M) (rows M) /\ shape P (rows M) (rows M) /\ perm_by_swaps (rows M) piv P sw /\
+    forall r c, r < rows M -> c < rows M ->
+      mprod (rows M) (ent P) (ent M) r c = mprod (rows M) (unit_lower LU) (upper LU) r c.
+Proof. intros A FL PL M. exact (lu_spec_lemma FL PL M). Qed.
+Check lu_spec : forall (A : Arith), FieldLaws A -> PivLaws A -> forall M : matrix A, wf M -> rows M = cols M ->
+  exists LU piv P sw, lu_decomp M = Ok (LU, piv, P) /\
+    shape LU (rows M) (rows M) /\ shape P (rows M) (rows M) /\ perm_by_swaps (rows M) piv P sw /\
+    forall r c, r < rows M -> c < rows M ->
+      mprod (rows M) (ent P) (ent M) r c = mprod (rows M) (unit_lower LU) (upper LU) r c.
+Print Assumptions lu_spec.
+(* non-vacuity: the laws hold at Qc and a 3x3 rational matrix with a zero leading entry meets the hypotheses and needs two exchanges *)
+Example lu_spec_nonvacuous : PivLaws AQ /\ wf M3 /\ rows M3 = cols M3 /\
+  (match lu_decomp M3 with Ok (_, piv, _) => piv =? 2 | Panic _ => false end) = true.
+Proof. split; [exact AQ_PivLaws|]. split; [reflexivity|]. split; [reflexivity|]. vm_compute. reflexivity. Qed.
+
+(* inverse: whatever it returns is a right inverse (a zero pivot makes the code panic on the exact types: then there is no N).
+   The left-inverse half (inverse_two_sided) is in Bridge (mathcomp, mulmx1C). *)
+Theorem inverse_right : forall (A : Arith), FieldLaws A -> PivLaws A -> forall M N : matrix A, wf M -> rows M = cols M ->
+  inverse M = Ok N ->
+  shape N (rows M) (rows M) /\
+  forall i j, i < rows M -> j < rows M -> mprod (rows M) (ent M) (ent N) i j = delta i j.
+Proof. intros A FL PL M N. exact (inverse_right_lemma FL PL M N). Qed.
+Check inverse_right : forall (A : Arith), FieldLaws A -> PivLaws A -> forall M N : matrix A, wf M -> rows M = cols M ->
+  inverse M = Ok N ->
+  shape N (rows M) (rows M) /\
+  forall i j, i < rows M -> j < rows M -> mprod (rows M) (ent M) (ent N) i j = delta i j.
+Print Assumptions inverse_right.
+Example inverse_right_nonvacuous : wf M3 /\ rows M3 = cols M3 /\ is_ok (inverse M3) = true.
+Proof. split; [reflexivity|]. split; [reflexivity|]. vm_compute. reflexivity. Qed.
+
+(* the LU half of C01 (pinned in Props/C01.v by the coordinator): solve_lu is sound *)
+Theorem solve_lu_sound_c02 : forall (A : Arith), FieldLaws A -> PivLaws A -> forall (M : matrix A) (b x : list A),
+  wf M -> rows M = cols M -> length b = rows M -> solve_lu M b = Ok x ->
+  length x = rows M /\
+  forall i, i < rows M -> mvprod (rows M) (ent M) (fun k => nth k x zero) i = nth i b zero.
+Proof. intros A FL PL M b x. exact (solve_lu_sound_lemma FL PL M b x). Qed.
+Check solve_lu_sound_c02 : forall (A : Arith), FieldLaws A -> PivLaws A -> forall (M : matrix A) (b x : list A),
+  wf M -> rows M = cols M -> length b = rows M -> solve_lu M b = Ok x ->
+  length x = rows M /\
+  forall i, i < rows M -> mvprod (rows M) (ent M) (fun k => nth k x zero) i = nth i b zero.
+Print Assumptions solve_lu_sound_c02.
+Example solve_lu_sound_nonvacuous : wf M3 /\ rows M3 = cols M3 /\ length b3 = rows M3 /\ is_ok (solve_lu M3 b3) = true.
+Proof. split; [reflexivity|]. split; [reflexivity|]. split; [reflexivity|]. vm_compute. reflexivity. Qed.
+
+(* determinant: total on square matrices; its value is (+/-) the product of U's diagonal, the sign being the parity of the number
+   of row exchanges `piv` that produced the permutation (sign rule); inverse is decided by the code's own determinant. *)
+Theorem determinant_sign_rule : forall (A : Arith), FieldLaws A -> PivLaws A -> forall (M : matrix A) (n : nat), shape M n n ->
+  exists LU piv P sw, lu_decomp M = Ok (LU, piv, P) /\ shape LU n n /\ shape P n n /\
+    perm_by_swaps n piv P sw /\
+    (forall r c, r < n -> c < n -> ent M (perm_of sw r) c = mprod n (unit_lower LU) (upper LU) r c) /\
+    determinant M = Ok (if Nat.even piv then prod_n n (fun i => ent LU i i)
+                        else neg (prod_n n (fun i => ent LU i i))).
+Proof. intros A FL PL M n. exact (determinant_eq FL PL M n). Qed.
+Check determinant_sign_rule : forall (A : Arith), FieldLaws A -> PivLaws A -> forall (M : matrix A) (n : nat), shape M n n ->
+  exists LU piv P sw, lu_decomp M = Ok (LU, piv, P) /\ shape LU n n /\ shape P n n /\
+    perm_by_swaps n piv P sw /\
+    (forall r c, r < n -> c < n -> ent M (perm_of sw r) c = mprod n (unit_lower LU) (upper LU) r c) /\
+    determinant M = Ok (if Nat.even piv then prod_n n (fun i => ent LU i i)
+                        else neg (prod_n n (fun i => ent LU i i))).
+Print Assumptions determinant_sign_rule.
+
+Theorem determinant_total : forall (A : Arith), FieldLaws A -> PivLaws A -> forall (M : matrix A), wf M -> rows M = cols M ->
+  exists d, determinant M = Ok d.
+Proof. intros A FL PL M. exact (determinant_total_lemma FL PL M). Qed.
+Check determinant_total : forall (A : Arith), FieldLaws A -> PivLaws A -> forall (M : matrix A), wf M -> rows M = cols M ->
+  exists d, determinant M = Ok d.
+Print Assumptions determinant_total.
+
+Theorem inverse_result : forall (A : Arith), FieldLaws A -> PivLaws A -> forall (M : matrix A) (d : A), wf M -> rows M = cols M -> 1 <= rows M ->
+  determinant M = Ok d ->
+  (d = zero -> inverse M = Panic DivZero) /\ (d <> zero -> exists N, inverse M = Ok N).
+Proof. intros A FL PL M d. exact (inverse_result_lemma FL PL M d). Qed.
+Check inverse_result : forall (A : Arith), FieldLaws A -> PivLaws A -> forall (M : matrix A) (d : A), wf M -> rows M = cols M -> 1 <= rows M ->
+  determinant M = Ok d ->
+  (d = zero -> inverse M = Panic DivZero) /\ (d <> zero -> exists N, inverse M = Ok N).
+Print Assumptions inverse_result.
+Example inverse_result_nonvacuous : wf M3 /\ rows M3 = cols M3 /\ 1 <= rows M3 /\ is_ok (determinant M3) = true.
+Proof. split; [reflexivity|]. split; [reflexivity|]. split; [repeat constructor|]. vm_compute. reflexivity. Qed.
+
+(* C02's inverse half for EVERY nonsingular matrix (nonsingular = has a left inverse Nf) over any field with a magnitude -- Qc, R, C
+   included, no mathcomp: inverse returns, the result is Nf, and it is a two-sided inverse; the determinant is a nonzero value. *)
+Theorem inverse_nonsingular : forall (A : Arith), FieldLaws A -> PivLaws A -> forall (M : matrix A) (Nf : nat -> nat -> A), wf M -> rows M = cols M ->
+  left_inverse (rows M) Nf (ent M) ->
+  exists N, inverse M = Ok N /\ shape N (rows M) (rows M) /\
+    (forall i j, i < rows M -> j < rows M -> ent N i j = Nf i j) /\
+    (forall i j, i < rows M -> j < rows M -> mprod (rows M) (ent M) (ent N) i j = delta i j) /\
+    (forall i j, i < rows M -> j < rows M -> mprod (rows M) (ent N) (ent M) i j = delta i j).
+Proof. intros A FL PL M Nf. exact (inverse_nonsingular_lemma FL PL M Nf). Qed.
+Check inverse_nonsingular : forall (A : Arith), FieldLaws A -> PivLaws A -> forall (M : matrix A) (Nf : nat -> nat -> A), wf M -> rows M = cols M ->
+  left_inverse (rows M) Nf (ent M) ->
+  exists N, inverse M = Ok N /\ shape N (rows M) (rows M) /\
+    (forall i j, i < rows M -> j < rows M -> ent N i j = Nf i j) /\
+    (forall i j, i < rows M -> j < rows M -> mprod (rows M) (ent M) (ent N) i j = delta i j) /\
+    (forall i j, i < rows M -> j < rows M -> mprod (rows M) (ent N) (ent M) i j = delta i j).
+Print Assumptions inverse_nonsingular.
+Example inverse_nonsingular_nonvacuous : wf M3 /\ rows M3 = cols M3 /\ left_inverse (rows M3) (ent N3) (ent M3).
+Proof. split; [reflexivity|]. split; [reflexivity|]. exact M3_left_inverse. Qed.
+
+Theorem determinant_nonsingular : forall (A : Arith), FieldLaws A -> PivLaws A -> forall (M : matrix A) (Nf : nat -> nat -> A), wf M -> rows M = cols M ->
+  left_inverse (rows M) Nf (ent M) -> exists d, determinant M = Ok d /\ d <> zero.
+Proof. intros A FL PL M Nf. exact (determinant_nonsingular_lemma FL PL M Nf). Qed.
+Check determinant_nonsingular : forall (A : Arith), FieldLaws A -> PivLaws A -> forall (M : matrix A) (Nf : nat -> nat -> A), wf M -> rows M = cols M ->
+  left_inverse (rows M) Nf (ent M) -> exists d, determinant M = Ok d /\ d <> zero.
+Print Assumptions determinant_nonsingular.
+
+Theorem solve_lu_complete_field_c02 : forall (A : Arith), FieldLaws A -> PivLaws A -> forall (M : matrix A) (b : list A) (Nf : nat -> nat -> A),
+  wf M -> rows M = cols M -> 1 <= rows M -> length b = rows M -> left_inverse (rows M) Nf (ent M) ->
+  exists x, solve_lu M b = Ok x.
+Proof. intros A FL PL M b Nf. exact (solve_lu_nonsingular_lemma FL PL M b Nf). Qed.
+Check solve_lu_complete_field_c02 : forall (A : Arith), FieldLaws A -> PivLaws A -> forall (M : matrix A) (b : list A) (Nf : nat -> nat -> A),
+  wf M -> rows M = cols M -> 1 <= rows M -> length b = rows M -> left_inverse (rows M) Nf (ent M) ->
+  exists x, solve_lu M b = Ok x.
+Print Assumptions solve_lu_complete_field_c02.
+
+Theorem determinant_singular_zero_field : forall (A : Arith), FieldLaws A -> PivLaws A -> forall (M : matrix A), wf M -> rows M = cols M ->
+  ~ (exists Nf : nat -> nat -> A, forall i j, i < rows M -> j < rows M -> mprod (rows M) (ent M) Nf i j = delta i j) ->
+  determinant M = Ok zero.
+Proof. intros A FL PL M. exact (determinant_singular_field_lemma FL PL M). Qed.
+Check determinant_singular_zero_field : forall (A : Arith), FieldLaws A -> PivLaws A -> forall (M : matrix A), wf M -> rows M = cols M ->
+  ~ (exists Nf : nat -> nat -> A, forall i j, i < rows M -> j < rows M -> mprod (rows M) (ent M) Nf i j = delta i j) ->
+  determinant M = Ok zero.
+Print Assumptions determinant_singular_zero_field.
+Example determinant_singular_zero_field_nonvacuous : (* the all-ones witness of the repaired defect: the pre-repair code panics there *)
+  wf ones3 /\ rows ones3 = cols ones3 /\
+  ~ (exists Nf : nat -> nat -> AQ, forall i j, i < rows ones3 -> j < rows ones3 -> mprod (rows ones3) (ent ones3) Nf i j = delta i j).
+Proof. split; [reflexivity|]. split; [reflexivity|]. exact ones3_no_right_inverse. Qed.
+
+(* the hypotheses are met by the arithmetics the code is used at (proved instances, not assumptions) *)
+Example laws_hold_at_Qc : PivLaws AQ.  Proof. exact AQ_PivLaws. Qed.
+Example field_laws_at_Qc : FieldLaws AQ := AQ_FieldLaws.
+Example laws_hold_at_R : PivLaws AR.  Proof. exact AR_PivLaws. Qed.
+Example field_laws_at_R : FieldLaws AR := AR_FieldLaws.
+Example laws_hold_at_C : PivLaws CR.  Proof. exact CR_PivLaws. Qed.
+Example field_laws_at_C : FieldLaws CR := CR_FieldLaws.
+
+(* ---------- the mathcomp half (Bridge/Det.v, Bridge/Inv.v): the model's determinant IS \det ---------- *)
+(* For every mathcomp fieldType F (mathcomp's rat included) with any abs/ltb meeting PivLaws, the arithmetic ArithOf F abs ltb leb
+   (div x y = Panic DivZero when y == 0, else x / y) inherits FieldLaws, and the code's determinant of the matrix with entries f i j
+   is mathcomp's \det -- for EVERY square matrix: hence the sign rule under any number of exchanges, multiplicativity, and the value 0
+   on singular input are mathcomp's theorems about \det (det_perm, det_mulmx, det0P).  tabulate n n f is the flat row-major buffer
+   the code stores (Proofs/LUTab.v: every wf matrix is tabulate of its entries). *)
+From OV Require Import Proofs.LUTab Bridge.Det Bridge.Inv Bridge.DetCor Bridge.InvCor Legacy.C02Refuted.
+From mathcomp Require Import all_ssreflect all_algebra.
+Local Open Scope ring_scope.
+
+Theorem determinant_is_det : forall (F : fieldType) (abs : F -> F) (ltb leb : F -> F -> bool),
+  PivLaws (ArithOf F abs ltb leb) -> forall (n : nat) (f : nat -> nat -> F),
+  @Solve.determinant (ArithOf F abs ltb leb) (@tabulate (ArithOf F abs ltb leb) n n f) = Ok (\det (\matrix_(i < n, j < n) f i j)).
+Proof. intros F abs ltb leb PL n f. exact (determinant_is_det_lemma PL n f). Qed.
+Check determinant_is_det : forall (F : fieldType) (abs : F -> F) (ltb leb : F -> F -> bool),
+  PivLaws (ArithOf F abs ltb leb) -> forall (n : nat) (f : nat -> nat -> F),
+  @Solve.determinant (ArithOf F abs ltb leb) (@tabulate (ArithOf F abs ltb leb) n n f) = Ok (\det (\matrix_(i < n, j < n) f i j)).
+Print Assumptions determinant_is_det.
+Example determinant_is_det_nonvacuous : PivLaws ratArith.
+Proof. exact rat_PivLaws. Qed.
+
+Theorem inverse_two_sided : forall (F : fieldType) (abs : F -> F) (ltb leb : F -> F -> bool),
+  PivLaws (ArithOf F abs ltb leb) -> forall M N : Matrix.matrix (ArithOf F abs ltb leb),
+  wf M -> rows M = cols M -> @Solve.inverse (ArithOf F abs ltb leb) M = Ok N ->
+  @LUPrim.shape (ArithOf F abs ltb leb) N (rows M) (rows M) /\
+  (forall i j, (i < rows M)%coq_nat -> (j < rows M)%coq_nat ->
+     @mprod (ArithOf F abs ltb leb) (rows M) (@ent _ M) (@ent _ N) i j = @delta (ArithOf F abs ltb leb) i j) /\
+  (forall i j, (i < rows M)%coq_nat -> (j < rows M)%coq_nat ->
+     @mprod (ArithOf F abs ltb leb) (rows M) (@ent _ N) (@ent _ M) i j = @delta (ArithOf F abs ltb leb) i j).
+Proof. intros F abs ltb leb PL M N. exact (inverse_two_sided_lemma PL (M:=M) (N:=N)). Qed.
+Check inverse_two_sided : forall (F : fieldType) (abs : F -> F) (ltb leb : F -> F -> bool),
+  PivLaws (ArithOf F abs ltb leb) -> forall M N : Matrix.matrix (ArithOf F abs ltb leb),
+  wf M -> rows M = cols M -> @Solve.inverse (ArithOf F abs ltb leb) M = Ok N ->
+  @LUPrim.shape (ArithOf F abs ltb leb) N (rows M) (rows M) /\
+  (forall i j, (i < rows M)%coq_nat -> (j < rows M)%coq_nat ->
+     @mprod (ArithOf F abs ltb leb) (rows M) (@ent _ M) (@ent _ N) i j = @delta (ArithOf F abs ltb leb) i j) /\
+  (forall i j, (i < rows M)%coq_nat -> (j < rows M)%coq_nat ->
+     @mprod (ArithOf F abs ltb leb) (rows M) (@ent _ N) (@ent _ M) i j = @delta (ArithOf F abs ltb leb) i j).
+Print Assumptions inverse_two_sided.
+Example inverse_two_sided_nonvacuous : PivLaws ratArith /\ wf R2 /\ rows R2 = cols R2 /\ is_ok (@Solve.inverse ratArith R2) = true.
+Proof. split; [exact rat_PivLaws|]. split; [reflexivity|]. split; [reflexivity|]. vm_compute. reflexivity. Qed.
+
+(* completeness: every nonsingular matrix HAS an inverse according to the code (no pivot is zero), and it is two-sided *)
+Theorem inverse_complete : forall (F : fieldType) (abs : F -> F) (ltb leb : F -> F -> bool),
+  PivLaws (ArithOf F abs ltb leb) -> forall (n : nat) (f : nat -> nat -> F),
+  \det (\matrix_(i < n, j < n) f i j) != 0 ->
+  exists N : Matrix.matrix (ArithOf F abs ltb leb), @Solve.inverse (ArithOf F abs ltb leb) (@tabulate (ArithOf F abs ltb leb) n n f) = Ok N /\
+    @LUPrim.shape (ArithOf F abs ltb leb) N n n /\
+    (forall i j, (i < n)%coq_nat -> (j < n)%coq_nat -> @mprod (ArithOf F abs ltb leb) n f (@ent _ N) i j = @delta (ArithOf F abs ltb leb) i j) /\
+    (forall i j, (i < n)%coq_nat -> (j < n)%coq_nat -> @mprod (ArithOf F abs ltb leb) n (@ent _ N) f i j = @delta (ArithOf F abs ltb leb) i j).
+Proof. intros F abs ltb leb PL n f. exact (inverse_complete_bridge PL (n:=n) (f:=f)). Qed.
+Check inverse_complete : forall (F : fieldType) (abs : F -> F) (ltb leb : F -> F -> bool),
+  PivLaws (ArithOf F abs ltb leb) -> forall (n : nat) (f : nat -> nat -> F),
+  \det (\matrix_(i < n, j < n) f i j) != 0 ->
+  exists N : Matrix.matrix (ArithOf F abs ltb leb), @Solve.inverse (ArithOf F abs ltb leb) (@tabulate (ArithOf F abs ltb leb) n n f) = Ok N /\
+    @LUPrim.shape (ArithOf F abs ltb leb) N n n /\
+    (forall i j, (i < n)%coq_nat -> (j < n)%coq_nat -> @mprod (ArithOf F abs ltb leb) n f (@ent _ N) i j = @delta (ArithOf F abs ltb leb) i j) /\
+    (forall i j, (i < n)%coq_nat -> (j < n)%coq_nat -> @mprod (ArithOf F abs ltb leb) n (@ent _ N) f i j = @delta (ArithOf F abs ltb leb) i j).
+Print Assumptions inverse_complete.
+Example inverse_complete_nonvacuous : PivLaws ratArith /\ \det (\matrix_(i < 3, j < 3) (if Nat.eqb i j then 1 else 0 : rat)) != 0.
+Proof. split; [exact rat_PivLaws | exact (det_id_neq0 rat_fieldType 3)]. Qed.
+
+(* the three halves of the property text that follow from determinant = \det, stated about the code's determinant *)
+Theorem determinant_singular_zero : forall (F : fieldType) (abs : F -> F) (ltb leb : F -> F -> bool),
+  PivLaws (ArithOf F abs ltb leb) -> forall (n : nat) (f : nat -> nat -> F) (v : nat -> F),
+  (exists i, (i < n)%coq_nat /\ v i <> 0) ->
+  (forall j, (j < n)%coq_nat -> @sum_n (ArithOf F abs ltb leb) n (fun i => v i * f i j) = 0) ->
+  @Solve.determinant (ArithOf F abs ltb leb) (@tabulate (ArithOf F abs ltb leb) n n f) = Ok (0 : F).
+Proof. intros F abs ltb leb PL n f v. exact (determinant_singular_zero_lemma PL (n:=n) (f:=f) (v:=v)). Qed.
+Check determinant_singular_zero : forall (F : fieldType) (abs : F -> F) (ltb leb : F -> F -> bool),
+  PivLaws (ArithOf F abs ltb leb) -> forall (n : nat) (f : nat -> nat -> F) (v : nat -> F),
+  (exists i, (i < n)%coq_nat /\ v i <> 0) ->
+  (forall j, (j < n)%coq_nat -> @sum_n (ArithOf F abs ltb leb) n (fun i => v i * f i j) = 0) ->
+  @Solve.determinant (ArithOf F abs ltb leb) (@tabulate (ArithOf F abs ltb leb) n n f) = Ok (0 : F).
+Print Assumptions determinant_singular_zero.
+Example determinant_singular_zero_nonvacuous : (* all-ones 3x3: the witness of the repaired defect; v = (1,-1,0) *)
+  (exists i, (i < 3)%coq_nat /\ (fun i => if Nat.eqb i 0 then 1 else if Nat.eqb i 1 then -1 else 0 : rat) i <> 0) /\
+  (forall j, (j < 3)%coq_nat -> @sum_n ratArith 3 (fun i => (if Nat.eqb i 0 then 1 else if Nat.eqb i 1 then -1 else 0 : rat) * 1) = 0).
+Proof. split; [exists 0%N; split; [repeat constructor | discriminate] | intros j _; vm_compute; reflexivity]. Qed.
+
+Theorem determinant_row_swap : forall (F : fieldType) (abs : F -> F) (ltb leb : F -> F -> bool),
+  PivLaws (ArithOf F abs ltb leb) -> forall (n : nat) (f : nat -> nat -> F) (a b : nat) (d : F),
+  (a < n)%coq_nat -> (b < n)%coq_nat -> a <> b ->
+  @Solve.determinant (ArithOf F abs ltb leb) (@tabulate (ArithOf F abs ltb leb) n n f) = Ok d ->
+  @Solve.determinant (ArithOf F abs ltb leb) (@tabulate (ArithOf F abs ltb leb) n n (fun i j => f (tr a b i) j)) = Ok (- d).
+Proof. intros F abs ltb leb PL n f a b d. exact (determinant_row_swap_lemma PL (n:=n) (f:=f) (a:=a) (b:=b) (d:=d)). Qed.
+Check determinant_row_swap : forall (F : fieldType) (abs : F -> F) (ltb leb : F -> F -> bool),
+  PivLaws (ArithOf F abs ltb leb) -> forall (n : nat) (f : nat -> nat -> F) (a b : nat) (d : F),
+  (a < n)%coq_nat -> (b < n)%coq_nat -> a <> b ->
+  @Solve.determinant (ArithOf F abs ltb leb) (@tabulate (ArithOf F abs ltb leb) n n f) = Ok d ->
+  @Solve.determinant (ArithOf F abs ltb leb) (@tabulate (ArithOf F abs ltb leb) n n (fun i j => f (tr a b i) j)) = Ok (- d).
+Print Assumptions determinant_row_swap.
+
+Theorem determinant_mul : forall (F : fieldType) (abs : F -> F) (ltb leb : F -> F -> bool),
+  PivLaws (ArithOf F abs ltb leb) -> forall (n : nat) (f g : nat -> nat -> F) (df dg : F),
+  @Solve.determinant (ArithOf F abs ltb leb) (@tabulate (ArithOf F abs ltb leb) n n f) = Ok df ->
+  @Solve.determinant (ArithOf F abs ltb leb) (@tabulate (ArithOf F abs ltb leb) n n g) = Ok dg ->
+  @Solve.determinant (ArithOf F abs ltb leb) (@tabulate (ArithOf F abs ltb leb) n n (@mprod (ArithOf F abs ltb leb) n f g)) = Ok (df * dg).
+Proof. intros F abs ltb leb PL n f g df dg. exact (determinant_mul_lemma PL (n:=n) (f:=f) (g:=g) (df:=df) (dg:=dg)). Qed.
+Check determinant_mul : forall (F : fieldType) (abs : F -> F) (ltb leb : F -> F -> bool),
+  PivLaws (ArithOf F abs ltb leb) -> forall (n : nat) (f g : nat -> nat -> F) (df dg : F),
+  @Solve.determinant (ArithOf F abs ltb leb) (@tabulate (ArithOf F abs ltb leb) n n f) = Ok df ->
+  @Solve.determinant (ArithOf F abs ltb leb) (@tabulate (ArithOf F abs ltb leb) n n g) = Ok dg ->
+  @Solve.determinant (ArithOf F abs ltb leb) (@tabulate (ArithOf F abs ltb leb) n n (@mprod (ArithOf F abs ltb leb) n f g)) = Ok (df * dg).
+Print Assumptions determinant_mul.
+(* determinant_row_swap / determinant_mul: their determinant hypotheses always hold (determinant_is_det: the code's determinant
+   returns a value on every square matrix), so they are not vacuous; Legacy/C02Refuted.v (determinant_legacy_refuted) shows the
+   pre-repair code violates determinant_singular_zero on the all-ones matrix. *)
+
+(* the inverse the code returns is THE inverse; it returns exactly on nonsingular input and panics (DivZero) exactly on singular input *)
+Theorem inverse_unique : forall (F : fieldType) (abs : F -> F) (ltb leb : F -> F -> bool),
+  PivLaws (ArithOf F abs ltb leb) -> forall (M N : Matrix.matrix (ArithOf F abs ltb leb)) (N'f : nat -> nat -> F),
+  wf M -> rows M = cols M -> @Solve.inverse (ArithOf F abs ltb leb) M = Ok N ->
+  (forall i j, (i < rows M)%coq_nat -> (j < rows M)%coq_nat -> @mprod (ArithOf F abs ltb leb) (rows M) (@ent _ M) N'f i j = @delta (ArithOf F abs ltb leb) i j) ->
+  forall i j, (i < rows M)%coq_nat -> (j < rows M)%coq_nat -> N'f i j = @ent (ArithOf F abs ltb leb) N i j.
+Proof. intros F abs ltb leb PL M N N'f. exact (inverse_unique_lemma PL (M:=M) (N:=N) (N'f:=N'f)). Qed.
+Check inverse_unique : forall (F : fieldType) (abs : F -> F) (ltb leb : F -> F -> bool),
+  PivLaws (ArithOf F abs ltb leb) -> forall (M N : Matrix.matrix (ArithOf F abs ltb leb)) (N'f : nat -> nat -> F),
+  wf M -> rows M = cols M -> @Solve.inverse (ArithOf F abs ltb leb) M = Ok N ->
+  (forall i j, (i < rows M)%coq_nat -> (j < rows M)%coq_nat -> @mprod (ArithOf F abs ltb leb) (rows M) (@ent _ M) N'f i j = @delta (ArithOf F abs ltb leb) i j) ->
+  forall i j, (i < rows M)%coq_nat -> (j < rows M)%coq_nat -> N'f i j = @ent (ArithOf F abs ltb leb) N i j.
+Print Assumptions inverse_unique.
+
+Theorem inverse_returns_iff_nonsingular : forall (F : fieldType) (abs : F -> F) (ltb leb : F -> F -> bool),
+  PivLaws (ArithOf F abs ltb leb) -> forall (n : nat) (f : nat -> nat -> F),
+  (exists N, @Solve.inverse (ArithOf F abs ltb leb) (@tabulate (ArithOf F abs ltb leb) n n f) = Ok N) <-> \det (\matrix_(i < n, j < n) f i j) != 0.
+Proof. intros F abs ltb leb PL n f. exact (inverse_ok_iff PL n f). Qed.
+Check inverse_returns_iff_nonsingular : forall (F : fieldType) (abs : F -> F) (ltb leb : F -> F -> bool),
+  PivLaws (ArithOf F abs ltb leb) -> forall (n : nat) (f : nat -> nat -> F),
+  (exists N, @Solve.inverse (ArithOf F abs ltb leb) (@tabulate (ArithOf F abs ltb leb) n n f) = Ok N) <-> \det (\matrix_(i < n, j < n) f i j) != 0.
+Print Assumptions inverse_returns_iff_nonsingular.
+
+Theorem inverse_panics_iff_singular : forall (F : fieldType) (abs : F -> F) (ltb leb : F -> F -> bool),
+  PivLaws (ArithOf F abs ltb leb) -> forall (n : nat) (f : nat -> nat -> F), (1 <= n)%coq_nat ->
+  @Solve.inverse (ArithOf F abs ltb leb) (@tabulate (ArithOf F abs ltb leb) n n f) = Panic DivZero <-> \det (\matrix_(i < n, j < n) f i j) = 0.
+Proof. intros F abs ltb leb PL n f. exact (inverse_panic_iff PL (n:=n) f). Qed.
+Check inverse_panics_iff_singular : forall (F : fieldType) (abs : F -> F) (ltb leb : F -> F -> bool),
+  PivLaws (ArithOf F abs ltb leb) -> forall (n : nat) (f : nat -> nat -> F), (1 <= n)%coq_nat ->
+  @Solve.inverse (ArithOf F abs ltb leb) (@tabulate (ArithOf F abs ltb leb) n n f) = Panic DivZero <-> \det (\matrix_(i < n, j < n) f i j) = 0.
+Print Assumptions inverse_panics_iff_singular.
+
+(* C01 completeness of the LU solver (pinned in Props/C01.v by the coordinator): a left inverse makes solve_lu return *)
+Theorem solve_lu_complete_c02 : forall (F : fieldType) (abs : F -> F) (ltb leb : F -> F -> bool),
+  PivLaws (ArithOf F abs ltb leb) -> forall (n : nat) (f Nf : nat -> nat -> F) (b : list F), (1 <= n)%coq_nat -> length b = n ->
+  (forall i j, (i < n)%coq_nat -> (j < n)%coq_nat -> @mprod (ArithOf F abs ltb leb) n Nf f i j = @delta (ArithOf F abs ltb leb) i j) ->
+  exists x, @Solve.solve_lu (ArithOf F abs ltb leb) (@tabulate (ArithOf F abs ltb leb) n n f) b = Ok x.
+Proof. intros F abs ltb leb PL n f Nf b. exact (solve_lu_complete_bridge PL (n:=n) (f:=f) (Nf:=Nf) (b:=b)). Qed.
+Check solve_lu_complete_c02 : forall (F : fieldType) (abs : F -> F) (ltb leb : F -> F -> bool),
+  PivLaws (ArithOf F abs ltb leb) -> forall (n : nat) (f Nf : nat -> nat -> F) (b : list F), (1 <= n)%coq_nat -> length b = n ->
+  (forall i j, (i < n)%coq_nat -> (j < n)%coq_nat -> @mprod (ArithOf F abs ltb leb) n Nf f i j = @delta (ArithOf F abs ltb leb) i j) ->
+  exists x, @Solve.solve_lu (ArithOf F abs ltb leb) (@tabulate (ArithOf F abs ltb leb) n n f) b = Ok x.
+Print Assumptions solve_lu_complete_c02.
+Example solve_lu_complete_nonvacuous : (* the identity is its own left inverse *)
+  forall i j, (i < 3)%coq_nat -> (j < 3)%coq_nat ->
+    @mprod ratArith 3 (fun i j => if Nat.eqb i j then 1 else 0 : rat) (fun i j => if Nat.eqb i j then 1 else 0 : rat) i j = @delta ratArith i j.
+Proof. intros [|[|[|i]]] [|[|[|j]]] Hi Hj; try (vm_compute; reflexivity); exfalso; move: Hi Hj => /ltP Hi /ltP Hj; discriminate. Qed.
